@@ -75,9 +75,17 @@ def generate(rng, tier, shard, nshards):
                 steps.append([name, o])
             if not ok:
                 continue
-            yield gops.event("transform", {"sr": srn, "G": G, "pipeline": steps, "L": L if len(G["rules"]) <= 5 else 2,
-                                            "names": names},
-                             site="transform/" + "|".join(pipe), feat=feat)
+            args = {"sr": srn, "G": G, "pipeline": steps, "L": L if len(G["rules"]) <= 5 else 2, "names": names}
+            f2 = feat
+            SAFE = {"separate_start": "separate_start", "separate_terminals": "separate_terminals", "binarize": "binarize",
+                    "unaryremove": "unaryremove", "renumber": "renumber"}
+            finite_total = srn in ("Sat3", "Sat2", "Bool") or shape == "acyclic"
+            if finite_total and len(G["rules"]) >= 2 and all(n_ in SAFE for n_ in pipe) and rng.random() < 0.5:
+                # used once, then rules added, then used again - on the same object
+                args["late"] = rng.randint(1, len(G["rules"]) - 1)
+                args["early"] = [SAFE[n_] for n_ in pipe] + [rng.choice(["null_weight", "has_unary_cycle", "derivative"])]
+                f2 = feat + "+rules-added-after-use"
+            yield gops.event("transform", args, site="transform/" + "|".join(pipe), feat=f2)
 
 
 def visible_string(G, sigma, maxlen, first=None):
